@@ -885,3 +885,199 @@ fn c12_reacquired_log_buffers_stop_lingering() {
     std::mem::forget(lb);
     std::mem::forget(c);
 }
+
+// ------------------------------------------------------------------------------------------------------------------
+// C14 (iii) / C09 — dispatch of a publication-ready event from the broadcast buffer into the conductor's registration.
+
+/// mapped log of a publication: a heap LogBuffers instead of an mmap (FFI is out of reach); counts how often it is asked for
+struct MapSeen {
+    magic: u64,
+    calls: u32,
+}
+static mut MAP: MapSeen = MapSeen { magic: 0x5a5a_c14d_3a90_0001, calls: 0 };
+fn heap_mapping<P: std::fmt::Display + AsRef<std::path::Path> + Into<std::ffi::OsString>>(_file_path: P, _pre_touch: bool) -> Result<LogBuffers, AeronError> {
+    unsafe { MAP.calls += 1 };
+    let mem: &'static mut Mem<{ 3 * 64 + 4096 }> = Box::leak(Box::new(Mem::zeroed()));
+    Ok(heap_log_buffers(mem))
+}
+
+/// The driver's ON_PUBLICATION_READY / ON_EXCLUSIVE_PUBLICATION_READY event (encoded here with literal protocol
+/// offsets: correlation id @0, registration id @8, session @16, stream @20, limit counter id @24, channel status id @28,
+/// log file name length @32, name @36) reaches the registration that asked for it with every field in its own place.
+macro_rules! dispatch_pub_ready {
+    ($name:ident, $exclusive:expr) => {
+#[kani::proof]
+#[kani::stub(std::hash::RandomState::new, stub_random_state)]
+#[kani::stub(crate::utils::misc::alloc_buffer_aligned, small_alloc)]
+#[kani::stub(crate::utils::misc::dealloc_buffer_aligned, no_dealloc)]
+#[kani::stub(crate::utils::log_buffers::LogBuffers::from_existing, heap_mapping)]
+fn $name() {
+    let mut b = Bufs::new();
+    let mut c = fresh(&mut b, 10_000);
+    unsafe {
+        SEEN.now = 0;
+        MAP.calls = 0;
+    }
+    let exclusive: bool = $exclusive;
+    let stream: i32 = kani::any();
+    let id = if exclusive {
+        vok!(c.add_exclusive_publication(text(b"ch"), stream), "C14: add_exclusive_publication")
+    } else {
+        vok!(c.add_publication(text(b"ch"), stream), "C14: add_publication")
+    };
+    let mut bm = Mem::<192>::zeroed(); // 64 data bytes + 128 trailer
+    let rx = match BroadcastReceiver::new(bm.buf()) {
+        Ok(r) => r,
+        Err(_) => unreachable!(),
+    };
+    let copy = Arc::new(Mutex::new(CopyBroadcastReceiver::new(Arc::new(Mutex::new(rx)))));
+    c.driver_listener_adapter = Some(DriverListenerAdapter::new(copy, dummy_conductor()));
+    // the event: a publication added a second time shares the log of the first one, so registration id != correlation id
+    let original: i64 = if exclusive { id } else { 77 };
+    let (session, limit_id, status_id): (i32, i32, i32) = (kani::any(), kani::any(), kani::any());
+    kani::assume(limit_id == 0 || limit_id == 1);
+    let buf = bm.buf();
+    buf.put::<i32>(0, 8 + 36 + 1);
+    buf.put::<i32>(4, if exclusive { 0x0F06 } else { 0x0F03 });
+    buf.put::<i64>(8, id);
+    buf.put::<i64>(16, original);
+    buf.put::<i32>(24, session);
+    buf.put::<i32>(28, stream);
+    buf.put::<i32>(32, limit_id);
+    buf.put::<i32>(36, status_id);
+    buf.put::<i32>(40, 1);
+    buf.put::<u8>(44, b'f');
+    buf.put::<i64>(64, 48); // tail intent
+    buf.put::<i64>(72, 48); // tail
+    buf.put::<i64>(80, 0); // latest
+
+    let r = c.do_work();
+    assert!(matches!(r, Ok(n) if n >= 1), "C14: the duty cycle processes the event");
+    std::mem::forget(r);
+    assert!(unsafe { MAP.calls } == 1, "C14: the publication's log is mapped exactly once");
+    assert!(unsafe { SEEN.new_pubs } == 1 && unsafe { SEEN.last_id } == id, "C14: the new-publication callback fires once with the registration's id");
+    if exclusive {
+        match c.exclusive_publication_by_registration_id.get(&id) {
+            Some(st) => {
+                assert!(st.status == RegistrationStatus::Registered, "C14: the matching registration becomes ready");
+                assert!(st.session_id == session && st.publication_limit_counter_id == limit_id && st.channel_status_id == status_id && st.buffers.is_some(), "C14: session id, limit counter id, channel status id and log reach the registration unchanged");
+            }
+            None => assert!(false, "C14: the registration disappeared"),
+        }
+    } else {
+        match c.publication_by_registration_id.get(&id) {
+            Some(st) => {
+                assert!(st.status == RegistrationStatus::Registered, "C14: the matching registration becomes ready");
+                assert!(st.original_registration_id == original, "C14: the event's registration id (the original publication sharing the log) reaches the registration");
+                assert!(st.session_id == session && st.publication_limit_counter_id == limit_id && st.channel_status_id == status_id && st.buffers.is_some(), "C14: session id, limit counter id, channel status id and log reach the registration unchanged");
+            }
+            None => assert!(false, "C14: the registration disappeared"),
+        }
+        assert!(c.log_buffers_by_registration_id.get(&original).is_some(), "C14: the mapped log is kept under the original registration id");
+    }
+    std::mem::forget(c);
+}
+    };
+}
+// @verif tier=quick unwind=6 fs=1300 timeout=1500
+dispatch_pub_ready!(c14_dispatch_publication_ready, false);
+// @verif tier=thorough unwind=6 fs=1300 timeout=1500
+dispatch_pub_ready!(c14_dispatch_exclusive_publication_ready, true);
+// the same obligation belongs to the registration protocol (C09): the ready event of one registration reaches exactly it
+// @verif tier=quick unwind=6 fs=1300 timeout=1500
+dispatch_pub_ready!(c09_publication_ready_event_reaches_its_registration, false);
+
+/// Fixed-size events through the real adapter: error response (known / foreign id), operation success, unavailable
+/// counter, client timeout. Event bytes are written with literal protocol offsets.
+macro_rules! dispatch_small {
+    ($name:ident, $which:expr) => {
+#[kani::proof]
+#[kani::stub(std::hash::RandomState::new, stub_random_state)]
+#[kani::stub(crate::utils::misc::alloc_buffer_aligned, small_alloc)]
+#[kani::stub(crate::utils::misc::dealloc_buffer_aligned, no_dealloc)]
+fn $name() {
+    let mut b = Bufs::new();
+    let mut c = fresh(&mut b, 10_000);
+    unsafe { SEEN.now = 0 };
+    let key = [1u8; 4];
+    let cid = vok!(c.add_counter(3, &key, "ab"), "C14: add_counter");
+    let mut bm = Mem::<192>::zeroed();
+    let rx = match BroadcastReceiver::new(bm.buf()) {
+        Ok(r) => r,
+        Err(_) => unreachable!(),
+    };
+    let copy = Arc::new(Mutex::new(CopyBroadcastReceiver::new(Arc::new(Mutex::new(rx)))));
+    c.driver_listener_adapter = Some(DriverListenerAdapter::new(copy, dummy_conductor()));
+    let buf = bm.buf();
+    let which: u8 = $which;
+    let (x, y): (i64, i32) = (kani::any(), kani::any());
+    if which == 0 {
+        // error response: offending correlation id @0, error code @8, message length @12, message @16
+        let foreign: bool = kani::any();
+        let target = if foreign { cid + 1000 } else { cid };
+        kani::assume(y != 4); // 4 = channel endpoint error, a different callback
+        buf.put::<i32>(0, 8 + 16 + 1);
+        buf.put::<i32>(4, 0x0F01);
+        buf.put::<i64>(8, target);
+        buf.put::<i32>(16, y);
+        buf.put::<i32>(20, 1);
+        buf.put::<u8>(24, b'e');
+        buf.put::<i64>(64, 32);
+        buf.put::<i64>(72, 32);
+        let r = c.do_work();
+        assert!(matches!(r, Ok(n) if n >= 1), "C14: the duty cycle processes the error event");
+        std::mem::forget(r);
+        match c.counter_by_registration_id.get(&cid) {
+            Some(st) => {
+                if foreign {
+                    assert!(st.status == RegistrationStatus::Awaiting, "C14: an error for a foreign id changes no registration");
+                } else {
+                    assert!(st.status == RegistrationStatus::Errored && st.error_code == y && st.error_message.as_bytes().len() == 1 && st.error_message.as_bytes()[0] == b'e', "C14: error code and message reach the offending registration");
+                }
+            }
+            None => assert!(false, "C14: the registration disappeared"),
+        }
+    } else if which == 1 {
+        // unavailable counter: correlation id @0, counter id @8
+        buf.put::<i32>(0, 8 + 12);
+        buf.put::<i32>(4, 0x0F09);
+        buf.put::<i64>(8, x);
+        buf.put::<i32>(16, y);
+        buf.put::<i64>(64, 24);
+        buf.put::<i64>(72, 24);
+        let r = c.do_work();
+        assert!(matches!(r, Ok(n) if n >= 1), "C14: the duty cycle processes the unavailable-counter event");
+        std::mem::forget(r);
+        assert!(unsafe { SEEN.unavail_counters } == 1 && unsafe { SEEN.last_id } == x && unsafe { SEEN.last_counter_id } == y, "C14: registration id and counter id reach the unavailable-counter callback");
+    } else {
+        // client timeout: client id @0
+        buf.put::<i32>(0, 8 + 8);
+        buf.put::<i32>(4, 0x0F0A);
+        buf.put::<i64>(8, x);
+        buf.put::<i64>(64, 16);
+        buf.put::<i64>(72, 16);
+        let r = c.do_work();
+        assert!(matches!(r, Ok(n) if n >= 1), "C14: the duty cycle processes the client-timeout event");
+        std::mem::forget(r);
+        assert!(c.is_closed() == (x == CLIENT_ID), "C14: the client id of a timeout event decides whether this client closes");
+    }
+    kani::cover!(which != 2 || x == CLIENT_ID, "[must] instance reaches the end (own client timeout when that is the event)");
+    std::mem::forget(c);
+}
+    };
+}
+// @verif tier=thorough unwind=6 fs=1300 timeout=1500
+dispatch_small!(c14_dispatch_error_response, 0);
+// @verif tier=quick unwind=6 fs=1300 timeout=1500
+dispatch_small!(c14_dispatch_unavailable_counter, 1);
+// @verif tier=quick unwind=6 fs=1300 timeout=1500
+dispatch_small!(c14_dispatch_client_timeout, 2);
+
+// C11 also states: "a registration unanswered for longer than the driver timeout is reported as such - neither earlier
+// nor never". Same harnesses as C09's unanswered instances (symbolic clock, exact boundary covered), run under C11 too.
+// @verif tier=quick unwind=6 fs=1300 timeout=1500
+sub_protocol!(c11_unanswered_subscription_times_out_on_time, 4);
+// @verif tier=thorough unwind=6 fs=1300 timeout=1500
+counter_protocol!(c11_unanswered_counter_times_out_on_time, 4);
+// @verif tier=thorough unwind=6 fs=1300 timeout=1500
+pub_protocol!(c11_unanswered_publication_times_out_on_time, false, 4);
